@@ -50,7 +50,7 @@ def gen(c, chunkings):
                     body = K.ctr_hmac_enc(T, p["key"], p["mackey"], p["iv"], p["aad"], m)
                 base = "%s:%s:%s:len%d:tag%d" % (f, cipher, api, ml, tl)
 
-                def case(what, iv=None, aad=None, b=None, touched=1, ch=None):
+                def case(what, iv=None, aad=None, b=None, touched=1, ch=None, inplace=0):
                     q = dict(p)
                     q["iv"] = p["iv"] if iv is None else iv
                     q["aad"] = p["aad"] if aad is None else aad
@@ -64,6 +64,8 @@ def gen(c, chunkings):
                             cuts.append(r)
                             acc += r
                         kw["chunks"] = ",".join(map(str, cuts))
+                    if inplace:
+                        kw["inplace"] = 1
                     add(what, base, f=f, api=api, msg=CL.hx(bb), touched=touched, **kw)
                 case("untouched", touched=0)
                 if api == "stream":
@@ -79,6 +81,8 @@ def gen(c, chunkings):
                             if tuple(ch) not in seen:
                                 seen.add(tuple(ch))
                                 case("untouched:chunks=%s" % ",".join(map(str, ch)), touched=0, ch=list(ch))
+                                if unit != 5:       # ... and decrypted in place (output buffer = input buffer, as the command line tools do)
+                                    case("untouched:inplace:chunks=%s" % ",".join(map(str, ch)), touched=0, ch=list(ch), inplace=1)
                 # the complete single-bit-flip neighbourhood (quick: every bit of nonce, AAD, tag and of up to 24 body bytes)
                 for i in range(len(p["iv"]) * 8):
                     x = bytearray(p["iv"]); x[i // 8] ^= 1 << (i % 8)
@@ -96,6 +100,13 @@ def gen(c, chunkings):
                         case("trunc:%d" % cut, b=body[:len(body) - cut])
                 for extra in (0, 255):
                     case("extend:%d" % extra, b=body + bytes([extra]))
+                # the boundary between associated data and ciphertext moved (both are changed, their concatenation is not): the last k AAD octets become the first k
+                # ciphertext octets, or the other way round
+                for k in (1, 16):
+                    if len(p["aad"]) >= k:
+                        case("shift:aad>body:%d" % k, aad=p["aad"][:len(p["aad"]) - k], b=p["aad"][len(p["aad"]) - k:] + body)
+                    if len(body) - tl >= k:
+                        case("shift:body>aad:%d" % k, aad=p["aad"] + body[:k], b=body[k:])
                 # the tag (last tl bytes of the body) changed in ways that cancel in a byte sum / XOR fold / order-insensitive or shortened comparison
                 for nm, tx in CL.cancelling(body[len(body) - tl:]):
                     case("tag:%s" % nm, b=body[:len(body) - tl] + tx)
